@@ -120,6 +120,8 @@ def gen_case(seed, tier='quick'):
     else:
         world = worlds.gen_world(rng, range_names=True,
                                  userfuncs=faulty and rng.random() < 0.5)
+        if rng.random() < 0.25:
+            worlds.add_env_cells(rng, world)
     side = None
     if not world.get('xlsx') and rng.random() < 0.08:
         side = add_side_effect_site(rng, world)
@@ -230,6 +232,8 @@ def gen_case(seed, tier='quick'):
              'set_via_evaluator': rng.random() < 0.5,
              'persistent_evaluators': rng.random() < 0.5,
              'reused_object': rng.random() < 0.12,
+             # the extract is used from another (sequentially run) thread
+             'x_in_thread': rng.random() < 0.12,
              'decoy': rng.random() < 0.2}
     return {'property': ID, 'seed': seed, 'knobs': knobs, 'world': world,
             'focus': focus, 'ops': ops}
@@ -307,8 +311,14 @@ def _run(case, fs):
         st = Stepper(interrupt_at=at, max_steps=SAFETY_STEPS)
         f0 = uf.fired
         ev = evaluator(model)
-        with st:
-            out = outcome_of(ev.evaluate, target)
+        if model is X and X is not None and \
+                case['knobs'].get('x_in_thread'):
+            from .c05 import call_in_thread
+            out = call_in_thread(st, ev.evaluate, target)
+            bump('probe:extract_evaluated_in_another_thread')
+        else:
+            with st:
+                out = outcome_of(ev.evaluate, target)
         bump('sim_steps', st.steps)
         fired = None
         if st.fired == 'interrupt':
